@@ -12,7 +12,7 @@ if ! git -C $W/repo apply "$PATCH"; then echo "patch does not apply"; exit 2; fi
 rsync -a --exclude .git --exclude replays --exclude seeded /verif/ $W/verif/
 sed -i "s#\"/repo#\"$W/repo#g" $W/verif/harness/Cargo.toml
 for P in "$@"; do
-  (cd $W/verif && VERIF_REPO=$W/repo timeout 3600 ./check $P --tier ${TIER:-quick} > $W/out_$P.txt 2>&1; echo "MUTANT $(basename $(dirname $PATCH))/$(basename $PATCH) $P rc=$?" >> $W/summary.txt)
+  (cd $W/verif && VERIF_REPO=$W/repo timeout 3600 ./check $P --tier ${TIER:-quick} > $W/out_$P.txt 2>&1; RC=$?; echo "MUTANT $(basename $(dirname $PATCH))/$(basename $PATCH) $P rc=$RC" >> $W/summary.txt)
   tail -n ${TAIL:-12} $W/out_$P.txt
   # keep replay files for inspection
   mkdir -p /tmp/me_replays && cp -r $W/verif/replays/$P /tmp/me_replays/ 2>/dev/null
